@@ -3,3 +3,6 @@ import HpoProps.C20
 import HpoProps.C01
 import HpoProps.C02
 import HpoProps.C15
+import HpoProps.C03
+import HpoProps.C10
+import HpoProps.C19
